@@ -115,7 +115,8 @@ fn main() {
             specs_ast.push((0..nb).map(|_| (r.pick(&KEYNAMES).to_string(), (0..(1 + r.below(3))).map(|_| gen_act(&mut r, 0)).collect())).collect());
         }
         let specs: Vec<String> = specs_ast.iter().map(|bs| bs.iter().map(|(k, acts)| format!("{}:{}", k, acts.iter().map(render_act).collect::<Vec<_>>().join("+"))).collect::<Vec<_>>().join(",")).collect();
-        let expect: Option<String> = if r.chance(1, 3) { Some((0..(1 + r.below(3))).map(|_| r.pick(&KEYNAMES).to_string()).collect::<Vec<_>>().join(",")) } else { None };
+        // (an expected key may be a character of the binding grammar itself: it is a key name here, nothing else)
+        let expect: Option<String> = if r.chance(1, 3) { Some((0..(1 + r.below(3))).map(|_| if r.chance(1, 6) { r.pick(&[":", ")", "(", "+", "]"]).to_string() } else { r.pick(&KEYNAMES).to_string() }).collect::<Vec<_>>().join(",")) } else { None };
         let ifargs: Vec<String> = (0..r.below(3)).map(|_| render_act(&gen_act(&mut r, 1))).collect();
         // probes: the keys named in the specs / expect list, plus a few fixed ones
         let mut probe_names: Vec<String> = specs_ast.iter().flatten().map(|b| b.0.clone()).collect();
